@@ -5,6 +5,7 @@
 -/
 import LccModel.Proto
 import LccModel.Model.Filter
+import LccModel.Model.ReportStore
 open Lean LccModel LccModel.Proto LccModel.Filter
 open LccModel.Regex (CSet Item Cat)
 
@@ -162,6 +163,18 @@ def handle (j : Json) : Except String Json := do
         loadSuites (!f.isEmpty) f.pred suites
       else selectCli cli report suites
     pure (outcome res)
+  | "reportseq" =>
+    -- one process, one project: rounds of (save the report at `path`, select with `cli` on that path)
+    let suites ← pList (pTree pNode) (← fld j "suites")
+    let rounds ← (← getArr j "rounds").toList.mapM (fun r => do
+      let path ← getStr r "path"
+      let report ← pList (pTree pTestRes) (← fld r "report")
+      let cli ← pCli (← fld r "cli")
+      pure [ReportStore.Op.save path report, ReportStore.Op.select cli path suites])
+    let outs := ReportStore.run {} [] rounds.flatten
+    pure (Json.mkObj [("rounds", Json.arr (outs.map (fun o => match o with
+      | .noReport => Json.mkObj [("outcome", Json.str "no-report")]
+      | .sel r => outcome r)).toArray)])
   | "filter_suites" =>
     -- bare `filter_suites(suites, TestFilter(...))`, no project-level checks
     let suites ← pList (pTree pNode) (← fld j "suites")
